@@ -356,6 +356,43 @@ theorem loads_exactly_partial (o o' : Name) (ls : List SLine) (st' : RState) (es
     storeAll_distinct es [] sets hsets (by simpa using hnd)]
   simp [ho]
 
+/-- **…and with several records per RRset**: when every stated record is new to its RRset when
+its turn comes (`AllNew`, decidable: no record of the RRset so far has equal data, and SOA / CNAME
+/ ANAME sets stay singletons), the file loads to the stated records grouped by (owner, type) in
+order of first appearance — each RRset in file order, carrying the TTL of its last record
+(`addRec`).  Outside `AllNew` the code replaces / ignores / refuses records (RFC 2136 §1.1.5
+rules in `RecordSet::insert`): modelled, validated by the correspondence run, no theorem. -/
+theorem loads_rrsets_partial (o o' : Name) (ls : List SLine) (st' : RState) (es : List Entry)
+    (ps : List (RType × Rec))
+    (hlex : File.ok (ls.map SLine.line) = true)
+    (hread : readFile { origin := some { o with fqdn := true } } ls = some (st', es))
+    (hnames : FileNamesOK { origin := some { o with fqdn := true } } ls)
+    (hrecs : es.mapM recOf = some ps) (hnew : AllNew [] ps)
+    (ho : st'.origin = some o') :
+    parse (render (ls.map SLine.line)) (some o) = .ok (o', ps.foldl addRec []) := by
+  rw [parse_render_partial o ls st' es hlex hread hnames,
+    storeAll_allNew es ps [] (by intro k rs h; simp at h) hrecs hnew]
+  simp [ho]
+
+/-- ```
+    www 60 A 1.2.3.4
+        60 A 5.6.7.8
+    ``` : one RRset with two records -/
+def twoAs : List SLine :=
+  [ .rr ⟨.name wWWW nWWW, [([32], [54, 48])], ([32], [65]), [.item [32] (.word [49, 46, 50, 46, 51, 46, 52])], ⟨[], none, 0⟩⟩,
+    .rr ⟨.inherit 9, [([32], [54, 48])], ([32], [65]), [.item [32] (.word [53, 46, 54, 46, 55, 46, 56])], ⟨[], none, 0⟩⟩ ]
+
+example : parse (render (twoAs.map SLine.line)) (some exampleCom) =
+    .ok (exampleCom,
+      [ (keyOf nWWW .a, (⟨nWWW, RType.a, 1, 60,
+          [⟨nWWW, 1, 60, .a [1, 2, 3, 4]⟩, ⟨nWWW, 1, 60, .a [5, 6, 7, 8]⟩]⟩ : RSet)) ]) := by
+  exact loads_rrsets_partial exampleCom exampleCom twoAs
+    { origin := some exampleCom, owner := some nWWW, lastTtl := some 60 }
+    [ { owner := nWWW, cls := 1, ttl := 60, typ := 1, origin := some exampleCom, rdata := [[49, 46, 50, 46, 51, 46, 52]] },
+      { owner := nWWW, cls := 1, ttl := 60, typ := 1, origin := some exampleCom, rdata := [[53, 46, 54, 46, 55, 46, 56]] } ]
+    [ (.a, ⟨nWWW, 1, 60, .a [1, 2, 3, 4]⟩), (.a, ⟨nWWW, 1, 60, .a [5, 6, 7, 8]⟩) ]
+    (by decide) (by decide) (by unfold FileNamesOK; decide) (by decide) (by decide) rfl
+
 /-- the sample zone of above, through the theorem: two record sets, `www TXT "a" "b" "c d"` with
 the `$TTL` and `www A 1.2.3.4` with its own TTL and the inherited owner -/
 example : parse (render (sampleZone.map SLine.line)) (some exampleCom) =
